@@ -163,13 +163,17 @@ def rand_subset(rng):
     return [['b', i] for i in rng.sample(range(6), k)]
 
 
-FORMS = ['function', 'function', 'partial', 'method', 'partial-registered', 'method-registered']
+# how a user rule is presented to the verifier (not part of the model: a rule is whatever can be called with the
+# graph; AdaptRegistry.is_native unwraps partials and bound methods, callable objects carry the flag themselves)
+FORMS = ['function', 'lambda', 'partial', 'method', 'partial-registered', 'method-registered',
+         'object', 'object', 'partial-of-object']
 
 
 def rand_user_config(rng, n_edges):
     """a user rule is ['u', native, behaviour, form]; form = how the callable is presented to the verifier
-    (plain function / functools.partial / bound method) and which object was registered native (the
-    underlying function, or the partial / bound method itself) - not part of the model: is_native unwraps"""
+    (plain function / lambda / functools.partial / bound method / callable object / partial of a callable object)
+    and which object was registered native (the underlying function or object, or the partial / bound method
+    itself) - not part of the model: is_native unwraps"""
     rules = [['b', i] for i in rng.sample(range(6), rng.randint(0, 3))]
     for _ in range(rng.choice([1, 1, 2])):
         rules.insert(rng.randint(0, len(rules)),
@@ -258,7 +262,7 @@ def make_user_rule(idx, native, behaviour, log, cur, form='function'):
             return True
         return _emit(behaviour[2], idx)
 
-    if form.startswith('partial'):
+    if form.startswith('partial') and not form.endswith('object'):
         def inner(x, unused=None):
             return body(x)
         presented = functools.partial(inner, unused=idx)
@@ -269,6 +273,19 @@ def make_user_rule(idx, native, behaviour, log, cur, form='function'):
                 return body(x)
         presented = Holder().check
         underlying = Holder.check
+    elif form == 'lambda':
+        presented = underlying = lambda x: body(x)        # noqa: E731
+    elif form.endswith('object'):
+        class RuleObject:
+            """class-based rule: an instance with __call__ (no __name__, no __func__)"""
+
+            def __init__(self, tag):
+                self.tag = tag
+
+            def __call__(self, x, unused=None):
+                return body(x)
+        underlying = RuleObject(idx)
+        presented = functools.partial(underlying, unused=idx) if form.startswith('partial') else underlying
     else:
         presented = underlying = body
     if native:
@@ -412,6 +429,7 @@ def stats_of(par, runs, acc):
                     b = q[2]
                     shape = b[1] if b[0] == 'const' else 'nested-verifier' if b[0] == 'nested' else b[0] + '/' + b[2]
                     facts.append(('user_rule', '%s %s' % ('native' if q[1] else 'domain', shape)))
+                    facts.append(('user_rule_form', q[3] if len(q) > 3 else 'function'))
         for fact, val in facts:
             d = acc['dist'].setdefault(fact, {})
             d[str(val)] = d.get(str(val), 0) + 1
@@ -582,6 +600,7 @@ def crafted_sequences():
                     (diamond, tree, [['b', 0], ['b', 2], ['b', 3], ['b', 4], ['b', 5],
                                      ['u', False, ['nodes', 4, 'RFalse'], 'function']]),
                     (diamond, tree, [['u', True, ['nodes', 4, 'RValueError'], 'method'], ['b', 1]]),
+                    (diamond, tree, [['b', 0], ['u', False, ['nodes', 4, 'RValueError'], 'object']]),
                     (chain, chain, 'DEFAULT')):
                 for first, second in ((a, b), (b, a)):
                     seq = [{'graph': first[0], 'names': first[1], 'obj': 0},
